@@ -17,6 +17,7 @@ func runC02(r *Run) {
 	r.rule("C02.R1", "share delta balance: TotalShare and UndelegatableShare move by the same symbol; OperatorShare moves by it iff the staker is associated with that operator; associate/dissociate move exactly the staker's existing share", 8)
 	r.rule("C02.R2", "delegator-list maintenance with the shares", 8)
 	r.rule("C02.R3", "rounding direction and last-share rules", 5)
+	iteratorVisitsAllRule(r, "C02.R1", map[string]bool{"x/delegation/keeper.Keeper.IterateDelegations": true})
 
 	get := func(pkg, fn string) (*FnView, []DTerm) {
 		v := w.View(pkg, fn)
